@@ -81,6 +81,13 @@ type TimeVal struct{ t *Term } // nanoseconds since the Unix epoch (mathematical
 
 type TupleVal []Value
 
+// FloatVal is a float64 that came from converting an integer: its value is the integer t, which
+// the conversion constrained to be float64(x) (exact below 2^53, rounded to the float64 spacing above).
+// Other floating-point values stay opaque.
+type FloatVal struct {
+	t *Term
+}
+
 type OpaqueVal struct {
 	typ types.Type
 	tag string
